@@ -19,6 +19,8 @@ Rs(t)         == [type |-> t, args |-> <<>>, res |-> "R"]      \* custom resolve
 Df(t)         == [type |-> t, args |-> <<>>, res |-> "D"]      \* default resolver
 RsA(t, args)  == [type |-> t, args |-> args, res |-> "R"]
 
+HArgs == << Ag("i", Nm("In")) >>
+InFields == << Ag("r", Nn(Nm("Int"))), Ag("l", Li(Nm("Int"))), Ag("n", Nm("In")), Ag("e", Nm("E")) >>
 FArgs == << Ag("a", Nm("Int")), AgD("b", Nm("String"), [t |-> "str", v |-> "d"]) >>
 GArgs == << Ag("r", Nn(Nm("Int"))) >>
 
@@ -27,7 +29,7 @@ Leafish(k) == [kind |-> k, fields |-> NoFields, possible |-> {}, possibleSeq |->
 
 TFields == [ s |-> Rs(Nm("String")), sn |-> Rs(Nn(Nm("String"))), i |-> Rs(Nm("Int")), d |-> Df(Nm("String")),
              o |-> Rs(Nm("T")), on |-> Rs(Nn(Nm("T"))), lo |-> Rs(Li(Nm("T"))), lnn |-> Rs(Li(Nn(Nm("T")))),
-             p |-> Rs(Nm("P")), e |-> Rs(Nm("E")), f |-> RsA(Nm("String"), FArgs), g |-> RsA(Nm("String"), GArgs) ]
+             p |-> Rs(Nm("P")), e |-> Rs(Nm("E")), f |-> RsA(Nm("String"), FArgs), g |-> RsA(Nm("String"), GArgs), h |-> RsA(Nm("String"), HArgs) ]
 
 PFields == [ s |-> Rs(Nm("String")), o |-> Rs(Nm("T")), p |-> Rs(Nm("P")) ]
 
@@ -38,7 +40,7 @@ TypesExec == [
                  p |-> Rs(Nm("P")), np |-> Rs(Nn(Nm("P"))), lp |-> Rs(Li(Nm("P"))), u |-> Rs(Nm("U")), lu |-> Rs(Li(Nn(Nm("U")))),
                  s |-> Rs(Nm("String")), sn |-> Rs(Nn(Nm("String"))), i |-> Rs(Nm("Int")), e |-> Rs(Nm("E")),
                  le |-> Rs(Li(Nm("E"))), ls |-> Rs(Li(Nn(Nm("String")))),
-                 f |-> RsA(Nm("String"), FArgs), g |-> RsA(Nm("String"), GArgs) ]],
+                 f |-> RsA(Nm("String"), FArgs), g |-> RsA(Nm("String"), GArgs), h |-> RsA(Nm("String"), HArgs) ]],
   T |-> [kind |-> "OBJECT", possible |-> {"T"}, possibleSeq |-> <<"T">>, values |-> <<>>, way |-> "key", fields |-> TFields],
   P |-> [kind |-> "INTERFACE", possible |-> {"A", "B"}, possibleSeq |-> <<"A", "B">>, values |-> <<>>, way |-> "", fields |-> PFields],
   A |-> [kind |-> "OBJECT", possible |-> {"A"}, possibleSeq |-> <<"A">>, values |-> <<>>, way |-> "key",
@@ -53,6 +55,7 @@ TypesExec == [
     fields |-> [ m1 |-> Rs(Nm("T")), m2 |-> Rs(Nn(Nm("T"))), m3 |-> Rs(Nm("String")), m4 |-> Rs(Nn(Nm("String"))), ml |-> Rs(Li(Nm("T"))) ]],
   Subscription |-> [kind |-> "OBJECT", possible |-> {"Subscription"}, possibleSeq |-> <<"Subscription">>, values |-> <<>>, way |-> "key",
     fields |-> [ ev |-> RsA(Nm("T"), FArgs), evs |-> Rs(Nm("String")) ]],
+  In |-> [kind |-> "INPUT", fields |-> NoFields, possible |-> {}, possibleSeq |-> <<>>, values |-> <<>>, way |-> "", inputs |-> InFields],
   String  |-> Leafish("SCALAR"),
   Int     |-> Leafish("SCALAR"),
   Boolean |-> Leafish("SCALAR"),
